@@ -561,6 +561,11 @@ func cmdRun(args []string) {
 					gotHash, _ = rs.Replay["log_hash"].(string)
 				}
 				freeMode := strings.Contains(sig, "|free:") || v.Class == "data-race"
+				if ps, ok := v.Spec["params"].(map[string]any); ok {
+					if f, ok := ps["free"].(float64); ok && f == 1 {
+						freeMode = true // (the run was executed under the race detector with real goroutines)
+					}
+				}
 				replayMode := ""
 				if rs != nil {
 					replayMode = rs.Hashes["replay_mode"]
